@@ -533,6 +533,15 @@ class Machine:
                         st.pc.append(cond if side else z3.Not(cond)); st.decisions[key] = (cond, side)
                         s2.pc.append(z3.Not(cond) if side else cond); s2.decisions[key] = (cond, not side); s2.model = mdl_other
                         work.append(s2)
+            except (AttributeError, TypeError, KeyError, IndexError, AssertionError) as e:
+                import traceback
+                stack = ' <- '.join('%s bb%d#%d' % (f.item.name[-60:], f.bb, f.ip) if not f.native else type(f).__name__ for f in reversed(st.frames[-4:]))
+                cur = ''
+                if st.frames and not st.frames[-1].native:
+                    fr = st.frames[-1]
+                    try: cur = repr(fr.body.blocks[fr.bb][fr.ip])[:300]
+                    except Exception: pass
+                raise Inconclusive('interpreter error %r at [%s] stmt %s\n%s' % (e, stack, cur, traceback.format_exc()[-800:]))
             except Panic as p:
                 if not p.where and st.frames:
                     fr = st.frames[-1]
